@@ -26,6 +26,8 @@ def step (vals : Array Val) (j : Json) : R Val := do
   let args ← nats (← field j "a")
   if f == "input" then
     return .ten (← tensorOfJson (← field j "tensor"))
+  if f == "opaque" then
+    return .bad "dep:opaque"
   let T0 ← getT vals (args.getD 0 0)
   match f with
   | "id" => pure (.ten T0)
